@@ -805,30 +805,6 @@ Proof.
   apply Forall2_firstn, Forall2_skipn, H.
 Qed.
 
-Lemma sim_fromiter x j ct cenv et eenv ctgt etgt fenv tensor sh cm a ct' cs et' es :
-  Inv x j ct cenv et eenv ctgt etgt fenv ->
-  cstep ops (ct, cenv) (OFromIter tensor sh cm a) = Some (Ok (ct', cs)) ->
-  estep ops (et, eenv) (OFromIter tensor sh cm a) = Some (Ok (et', es)) ->
-  exists fs, Inv x j ct' (cenv ++ cs) et' (eenv ++ es) ctgt etgt (fenv ++ fs) /\ length cs = 1.
-Proof.
-  intros I. cbn [cstep estep].
-  destruct (nth_error cenv a) as [cx|] eqn:Ea; [|discriminate].
-  destruct (Inv_get _ _ _ _ _ _ _ _ _ _ _ I Ea) as (ex & ds & Ee & Hc & He & [L1 L2]). rewrite Ee.
-  destruct (cm && c_tensor cx); [discriminate|]. destruct (cm && e_tensor ex); [discriminate|].
-  destruct (negb tensor && negb (Nat.eqb (length sh) 2)); [discriminate|].
-  destruct (c_from_iter tensor sh (if cm then column_major (c_shape cx) (as_records cx) else as_records cx))
-    as [c| |] eqn:Ef; try discriminate.
-  cbn [omap]. intros E; inversion E; subst ct' cs; clear E. intros E; inversion E; subst et' es; clear E.
-  destruct (c_from_iter_records _ _ _ _ Ef) as (R1 & R2 & R3).
-  pose proof I as (G1 & _ & _ & G2 & _).
-  exists [if cm then column_major (c_shape cx) ds else ds]. split; [|reflexivity].
-  apply (Inv_op _ _ _ _ _ _ _ _ _ _ _ _ _ _ _ _ I (ext_refl _ _ G1) (ext_refl _ _ G2)).
-  - constructor; [|constructor]. unfold cont_ok. rewrite R1. destruct cm; [apply Forall2_column_major|]; exact Hc.
-  - constructor; [|constructor]. unfold eok. cbn [e_recs]. rewrite <- L2.
-    destruct cm; [apply Forall2_column_major|]; exact He.
-  - constructor; [|constructor]. split; cbn; assumption.
-Qed.
-
 (* the scalar closures, evaluated on duals *)
 Fixpoint deval (e : sexpr R) (d : dual) (first : bool) : dual :=
   match e with
@@ -839,20 +815,23 @@ Fixpoint deval (e : sexpr R) (d : dual) (first : bool) : dual :=
   | SBin code e1 e2 =>
       match binfn_of ops code with Some f => db f (deval e1 d first) (deval e2 d first) | None => (rO, rO) end
   | SFirst e1 e2 => if first then deval e1 d first else deval e2 d first
+  | SOther => (rO, rO)
   end.
 
-Lemma rec_eval_ok first : forall e t s x d t' y, good t s -> rec_ok t s x d ->
+Lemma rec_eval_ok first : forall e t s x d t' y, local_expr e = true -> good t s -> rec_ok t s x d ->
   rec_eval ops t e x first = Some (Ok (t', y)) ->
   exists s', ext t s t' s' /\ rec_ok t' s' y (deval e d first).
 Proof.
-  induction e as [|c|e1 IH1|code c e1 IH1|code e1 IH1 e2 IH2|e1 IH1 e2 IH2]; intros t s x d t' y G Hx; cbn [rec_eval deval].
+  induction e as [|c|e1 IH1|code c e1 IH1|code e1 IH1 e2 IH2|e1 IH1 e2 IH2|]; intros t s x d t' y Hloc G Hx;
+    cbn [rec_eval deval]; cbn [local_expr] in Hloc; try discriminate Hloc;
+    try (apply andb_true_iff in Hloc as [Hloc1 Hloc2]).
   - intros E; inversion E; subst. exists s. split; [apply ext_refl; auto|exact Hx].
   - intros E; inversion E; subst. exists s. split; [apply ext_refl; auto|apply rec_constant_ok].
   - destruct (rec_eval ops t e1 x first) as [[[t1 r]| |]|] eqn:E1; try discriminate.
-    intros E; inversion E; subst. destruct (IH1 _ _ _ _ _ _ G Hx E1) as (s1 & X1 & [Hv _]).
+    intros E; inversion E; subst. destruct (IH1 _ _ _ _ _ _ Hloc G Hx E1) as (s1 & X1 & [Hv _]).
     exists s1. split; [exact X1|]. split; [cbn; exact Hv|reflexivity].
   - destruct (rec_eval ops t e1 x first) as [[[t1 r]| |]|] eqn:E1; try discriminate.
-    intros E. destruct (IH1 _ _ _ _ _ _ G Hx E1) as (s1 & X1 & Hr).
+    intros E. destruct (IH1 _ _ _ _ _ _ Hloc G Hx E1) as (s1 & X1 & Hr).
     assert (Hf : exists f, unfn_of ops code c = Some f).
     { revert E. unfold rec_unary_code. destruct code; [cbn; eauto|]. destruct (unfn_of ops (S code) c); [eauto|discriminate]. }
     destruct Hf as [f Hf]. rewrite Hf.
@@ -860,10 +839,10 @@ Proof.
     exists s2. split; [eapply ext_trans; eauto|exact Hy].
   - destruct (binfn_of ops code) as [f|]; [|discriminate].
     destruct (rec_eval ops t e1 x first) as [[[t1 r1]| |]|] eqn:E1; try discriminate.
-    destruct (IH1 _ _ _ _ _ _ G Hx E1) as (s1 & X1 & Hr1).
+    destruct (IH1 _ _ _ _ _ _ Hloc1 G Hx E1) as (s1 & X1 & Hr1).
     destruct (rec_eval ops t1 e2 x first) as [[[t2 r2]| |]|] eqn:E2; try discriminate.
     pose proof X1 as (_ & G1 & M1).
-    destruct (IH2 _ _ _ _ _ _ G1 (M1 _ _ Hx) E2) as (s2 & X2 & Hr2).
+    destruct (IH2 _ _ _ _ _ _ Hloc2 G1 (M1 _ _ Hx) E2) as (s2 & X2 & Hr2).
     pose proof X2 as (_ & G2 & M2).
     intros E. inversion E as [E'].
     destruct (rec_binary_ok _ _ _ _ _ _ _ _ _ G2 (M2 _ _ Hr1) Hr2 E') as (s3 & X3 & Hz).
@@ -874,15 +853,15 @@ Qed.
 Fixpoint deval_each (e : sexpr R) (ds : list dual) (first : bool) : list dual :=
   match ds with [] => [] | d :: r => deval e d first :: deval_each e r false end.
 
-Lemma eval_each_ok e : forall rs ds first t s t' ys, good t s -> recs_ok t s rs ds ->
+Lemma eval_each_ok e : local_expr e = true -> forall rs ds first t s t' ys, good t s -> recs_ok t s rs ds ->
   eval_each ops t e rs first = Some (Ok (t', ys)) ->
   exists s', ext t s t' s' /\ recs_ok t' s' ys (deval_each e ds first).
 Proof.
-  induction rs as [|r rest IH]; intros ds first t s t' ys G Hr.
+  intros Hloc. induction rs as [|r rest IH]; intros ds first t s t' ys G Hr.
   - cbn. intros E. inversion E; subst. exists s. split; [apply ext_refl; auto|]. inversion Hr; subst. constructor.
   - inversion Hr as [|? d ? dr Hr1 Hrr]; subst. cbn [eval_each].
     destruct (rec_eval ops t e r first) as [[[t1 y]| |]|] eqn:E1; try discriminate.
-    destruct (rec_eval_ok first e _ _ _ _ _ _ G Hr1 E1) as (s1 & X1 & Hy).
+    destruct (rec_eval_ok first e _ _ _ _ _ _ Hloc G Hr1 E1) as (s1 & X1 & Hy).
     destruct (eval_each ops t1 e rest false) as [[[t2 yr]| |]|] eqn:E2; try discriminate.
     intros E. inversion E; subst t' ys; clear E.
     destruct (IH dr false t1 s1 t2 yr (proj1 (proj2 X1)) (recs_ok_ext _ _ _ _ _ _ X1 Hrr) E2) as (s2 & X2 & Hyr).
@@ -890,13 +869,50 @@ Proof.
     destruct X2 as (_ & _ & M). apply M. exact Hy.
 Qed.
 
+Lemma sim_fromiter x j ct cenv et eenv ctgt etgt fenv tensor sh cm e a ct' cs et' es :
+  local_expr e = true ->
+  Inv x j ct cenv et eenv ctgt etgt fenv ->
+  cstep ops (ct, cenv) (OFromIter tensor sh cm e a) = Some (Ok (ct', cs)) ->
+  estep ops (et, eenv) (OFromIter tensor sh cm e a) = Some (Ok (et', es)) ->
+  exists fs, Inv x j ct' (cenv ++ cs) et' (eenv ++ es) ctgt etgt (fenv ++ fs) /\ length cs = 1.
+Proof.
+  intros Hloc I. cbn [cstep estep].
+  destruct (nth_error cenv a) as [cx|] eqn:Ea; [|discriminate].
+  destruct (Inv_get _ _ _ _ _ _ _ _ _ _ _ I Ea) as (ex & ds & Ee & Hc & He & [L1 L2]). rewrite Ee.
+  destruct (cm && c_tensor cx); [discriminate|]. destruct (cm && e_tensor ex); [discriminate|].
+  destruct (negb tensor && negb (Nat.eqb (length sh) 2)); [discriminate|].
+  destruct (eval_each ops ct e (if cm then column_major (c_shape cx) (as_records cx) else as_records cx) true)
+    as [[[t1 ys]| |]|] eqn:E1; try discriminate.
+  destruct (c_from_iter tensor sh ys) as [c| |] eqn:Ef; try discriminate.
+  cbn [omap]. intros E; inversion E; subst ct' cs; clear E.
+  destruct (eval_each ops et e (if cm then column_major (e_shape ex) (e_recs ex) else e_recs ex) true)
+    as [[[t2 zs]| |]|] eqn:E2; try discriminate.
+  cbn [omap fst snd]. intros E; inversion E; subst et' es; clear E.
+  destruct (c_from_iter_records _ _ _ _ Ef) as (R1 & R2 & R3).
+  pose proof I as (G1 & _ & _ & G2 & _).
+  assert (Hc' : recs_ok ct (S_ ct ctgt) (if cm then column_major (c_shape cx) (as_records cx) else as_records cx)
+                  (if cm then column_major (c_shape cx) ds else ds)).
+  { destruct cm; [apply Forall2_column_major|]; exact Hc. }
+  assert (He' : recs_ok et (S_ et etgt) (if cm then column_major (e_shape ex) (e_recs ex) else e_recs ex)
+                  (if cm then column_major (c_shape cx) ds else ds)).
+  { rewrite <- L2. destruct cm; [apply Forall2_column_major|]; exact He. }
+  destruct (eval_each_ok e Hloc _ _ _ _ _ _ _ G1 Hc' E1) as (s1 & X1 & Hys).
+  destruct (eval_each_ok e Hloc _ _ _ _ _ _ _ G2 He' E2) as (s2 & X2 & Hzs).
+  exists [deval_each e (if cm then column_major (c_shape cx) ds else ds) true]. split; [|reflexivity].
+  apply (Inv_op _ _ _ _ _ _ _ _ _ _ _ s1 s2 _ _ _ I X1 X2).
+  - constructor; [|constructor]. unfold cont_ok. rewrite R1. exact Hys.
+  - constructor; [|constructor]. exact Hzs.
+  - constructor; [|constructor]. split; cbn; assumption.
+Qed.
+
 Lemma sim_map x j ct cenv et eenv ctgt etgt fenv mu e a ct' cs et' es :
+  local_expr e = true ->
   Inv x j ct cenv et eenv ctgt etgt fenv ->
   cstep ops (ct, cenv) (OMap mu e a) = Some (Ok (ct', cs)) ->
   estep ops (et, eenv) (OMap mu e a) = Some (Ok (et', es)) ->
   exists fs, Inv x j ct' (cenv ++ cs) et' (eenv ++ es) ctgt etgt (fenv ++ fs) /\ length cs = 1.
 Proof.
-  intros I. cbn [cstep estep].
+  intros Hloc I. cbn [cstep estep].
   destruct (nth_error cenv a) as [cx|] eqn:Ea; [|discriminate].
   destruct (Inv_get _ _ _ _ _ _ _ _ _ _ _ I Ea) as (ex & ds & Ee & Hc & He & [L1 L2]). rewrite Ee.
   unfold c_map. destruct (eval_each ops ct e (as_records cx) true) as [[[t1 ys]| |]|] eqn:E1; try discriminate.
@@ -906,8 +922,8 @@ Proof.
   cbn [omap fst snd]. intros E; inversion E; subst et' es; clear E.
   destruct (c_from_iter_records _ _ _ _ Ef) as (R1 & R2 & R3).
   pose proof I as (G1 & _ & _ & G2 & _).
-  destruct (eval_each_ok e _ _ _ _ _ _ _ G1 Hc E1) as (s1 & X1 & Hys).
-  destruct (eval_each_ok e _ _ _ _ _ _ _ G2 He E2) as (s2 & X2 & Hzs).
+  destruct (eval_each_ok e Hloc _ _ _ _ _ _ _ G1 Hc E1) as (s1 & X1 & Hys).
+  destruct (eval_each_ok e Hloc _ _ _ _ _ _ _ G2 He E2) as (s2 & X2 & Hzs).
   exists [deval_each e ds true]. split; [|reflexivity].
   apply (Inv_op _ _ _ _ _ _ _ _ _ _ _ s1 s2 _ _ _ I X1 X2).
   - constructor; [|constructor]. unfold cont_ok. rewrite R1. exact Hys.
@@ -1157,18 +1173,19 @@ Proof.
   - constructor; [|constructor]. split; reflexivity.
 Qed.
 
-Lemma eval_each2_ok e1 e2 : forall rs ds first t s t' ys1 ys2, good t s -> recs_ok t s rs ds ->
+Lemma eval_each2_ok e1 e2 : local_expr e1 = true -> local_expr e2 = true ->
+  forall rs ds first t s t' ys1 ys2, good t s -> recs_ok t s rs ds ->
   eval_each2 ops t e1 e2 rs first = Some (Ok (t', (ys1, ys2))) ->
   exists s', ext t s t' s' /\ recs_ok t' s' ys1 (deval_each e1 ds first) /\ recs_ok t' s' ys2 (deval_each e2 ds first).
 Proof.
-  induction rs as [|r rest IH]; intros ds first t s t' ys1 ys2 G Hr.
+  intros Hloc1 Hloc2. induction rs as [|r rest IH]; intros ds first t s t' ys1 ys2 G Hr.
   - cbn. intros E. inversion E; subst. exists s. split; [apply ext_refl; auto|]. inversion Hr; subst. split; constructor.
   - inversion Hr as [|? d ? dr Hr1 Hrr]; subst. cbn [eval_each2].
     destruct (rec_eval ops t e1 r first) as [[[t1 y1]| |]|] eqn:E1; try discriminate.
-    destruct (rec_eval_ok first e1 _ _ _ _ _ _ G Hr1 E1) as (s1 & X1 & Hy1).
+    destruct (rec_eval_ok first e1 _ _ _ _ _ _ Hloc1 G Hr1 E1) as (s1 & X1 & Hy1).
     pose proof X1 as (_ & G1 & M1).
     destruct (rec_eval ops t1 e2 r first) as [[[t2 y2]| |]|] eqn:E2; try discriminate.
-    destruct (rec_eval_ok first e2 _ _ _ _ _ _ G1 (M1 _ _ Hr1) E2) as (s2 & X2 & Hy2).
+    destruct (rec_eval_ok first e2 _ _ _ _ _ _ Hloc2 G1 (M1 _ _ Hr1) E2) as (s2 & X2 & Hy2).
     pose proof X2 as (_ & G2 & M2).
     destruct (eval_each2 ops t2 e1 e2 rest false) as [[[t3 [yr1 yr2]]| |]|] eqn:E3; try discriminate.
     intros E. inversion E; subst t' ys1 ys2; clear E.
@@ -1179,12 +1196,13 @@ Proof.
 Qed.
 
 Lemma sim_fromiters2 x j ct cenv et eenv ctgt etgt fenv e1 e2 a ct' cs et' es :
+  local_expr e1 = true -> local_expr e2 = true ->
   Inv x j ct cenv et eenv ctgt etgt fenv ->
   cstep ops (ct, cenv) (OFromIters2 e1 e2 a) = Some (Ok (ct', cs)) ->
   estep ops (et, eenv) (OFromIters2 e1 e2 a) = Some (Ok (et', es)) ->
   exists fs, Inv x j ct' (cenv ++ cs) et' (eenv ++ es) ctgt etgt (fenv ++ fs) /\ length cs = 2.
 Proof.
-  intros I. cbn [cstep estep].
+  intros Hloc1 Hloc2 I. cbn [cstep estep].
   destruct (nth_error cenv a) as [cx|] eqn:Ea; [|discriminate].
   destruct (Inv_get _ _ _ _ _ _ _ _ _ _ _ I Ea) as (ex & ds & Ee & Hc & He & [L1 L2]). rewrite Ee.
   destruct (eval_each2 ops ct e1 e2 (as_records cx) true) as [[[t1 [ys1 ys2]]| |]|] eqn:E1; try discriminate.
@@ -1196,8 +1214,8 @@ Proof.
   destruct (c_from_iter_records _ _ _ _ Ef1) as (R1 & R2 & R3).
   destruct (c_from_iter_records _ _ _ _ Ef2) as (Q1 & Q2 & Q3).
   pose proof I as (G1 & _ & _ & G2 & _).
-  destruct (eval_each2_ok e1 e2 _ _ _ _ _ _ _ _ G1 Hc E1) as (s1 & X1 & Hys1 & Hys2).
-  destruct (eval_each2_ok e1 e2 _ _ _ _ _ _ _ _ G2 He E2) as (s2 & X2 & Hzs1 & Hzs2).
+  destruct (eval_each2_ok e1 e2 Hloc1 Hloc2 _ _ _ _ _ _ _ _ G1 Hc E1) as (s1 & X1 & Hys1 & Hys2).
+  destruct (eval_each2_ok e1 e2 Hloc1 Hloc2 _ _ _ _ _ _ _ _ G2 He E2) as (s2 & X2 & Hzs1 & Hzs2).
   exists [deval_each e1 ds true; deval_each e2 ds true]. split; [|reflexivity].
   apply (Inv_op _ _ _ _ _ _ _ _ _ _ _ s1 s2 _ _ _ I X1 X2).
   - constructor; [|constructor; [|constructor]]; unfold cont_ok; [rewrite R1|rewrite Q1]; assumption.
@@ -1209,6 +1227,8 @@ Qed.
 (* operation kinds covered by the simulation proof below *)
 Definition supported (o : cop R) : bool :=
   match o with
+  | OMap _ e _ | OFromIter _ _ _ e _ => local_expr e
+  | OFromIters2 e1 e2 _ => local_expr e1 && local_expr e2
   | _ => true
   end.
 
